@@ -160,6 +160,14 @@ def memory_bound_case(rep, binary, proto_path, scratch):
     with open(os.path.join(root, "big.iso"), "wb") as f:
         f.truncate(3 * 1024 ** 3)
     open(os.path.join(root, "small.txt"), "w").write("hello")
+    # a PARAM.SFO whose TITLE_ID declares 4 GiB of value, in a file that really is that long (sparse)
+    import isotrees
+    os.makedirs(os.path.join(root, "GAME", "PS3_GAME"))
+    sfo = bytearray(bytes.fromhex(isotrees.param_sfo(["x"], "BLES01234", 0)["raw"]))
+    sfo[20 + 4:20 + 8] = (0xFFFFFFFF).to_bytes(4, "little")         # DataLen of the first (only) index entry
+    with open(os.path.join(root, "GAME", "PS3_GAME", "PARAM.SFO"), "wb") as f:
+        f.write(bytes(sfo))
+        f.truncate(3 * 1024 ** 3)
     pt = proto_path if isinstance(proto_path, binsrv.Proto) else binsrv.Proto(proto_path)
     cmd = "ulimit -v 2500000; exec %s server --root %s --listen-addr 127.0.0.1:0 --json-log" % (binary, root)
     s = binsrv.Server("/bin/sh", ["-c", cmd], cwd=base)
@@ -167,27 +175,39 @@ def memory_bound_case(rep, binary, proto_path, scratch):
         if not s.addr:
             crashed, txt = s.crashed()
             raise common.CheckError("memory-bound server did not start (the Go runtime may need more address space): " + txt[-300:])
-        a = binsrv.Client(s.addr)
-        a.send(pt.encode("OPEN_FILE", path="/big.iso"))
-        a.recv_exact(pt.fixed_len("OPEN_FILE"), 5.0)
-        a.send(pt.encode("READ_FILE", limit=2 ** 31 - 1, off=0))
-        got, st = a.recv_exact(4 + 1024 * 1024, 60.0)       # the count and the first MiB, then walk away
-        a.close()
+        g = binsrv.Client(s.addr)
+        g.send(pt.encode("OPEN_FILE", path="/***PS3***/GAME"))
+        g.recv_exact(pt.fixed_len("OPEN_FILE"), 30.0)
+        g.close()
+        got = b""
+        try:
+            a = binsrv.Client(s.addr)
+            a.send(pt.encode("OPEN_FILE", path="/big.iso"))
+            a.recv_exact(pt.fixed_len("OPEN_FILE"), 5.0)
+            a.send(pt.encode("READ_FILE", limit=2 ** 31 - 1, off=0))
+            got, st = a.recv_exact(4 + 1024 * 1024, 60.0)       # the count and the first MiB, then walk away
+            a.close()
+        except OSError:
+            pass                                                # (refused: the server is gone already)
         time.sleep(0.5)
         alive = s.alive()
         served = False
         if alive:
-            b = binsrv.Client(s.addr)
-            b.send(pt.encode("STAT_FILE", path="/small.txt"))
-            r, st2 = b.recv_exact(pt.fixed_len("STAT_FILE"), 5.0)
-            served = st2 == "ok"
-            b.close()
+            try:
+                b = binsrv.Client(s.addr)
+                b.send(pt.encode("STAT_FILE", path="/small.txt"))
+                r, st2 = b.recv_exact(pt.fixed_len("STAT_FILE"), 5.0)
+                served = st2 == "ok"
+                b.close()
+            except OSError:
+                served = False
         rep.cov["evaluations"] += 1
         if not (alive and served):
             crashed, txt = s.crashed()
             first = [l for l in txt.splitlines() if l.startswith("fatal error:") or l.startswith("panic:") or "out of memory" in l]
             rep.violation("crash:membound:" + (first[0][:80] if first else "not serving"),
-                          "the server (address space limited to 2.5 GB) does not survive one READ_FILE of 2^31-1 bytes on a sparse 3 GiB file: "
+                          "the server (address space limited to 2.5 GB) does not survive OPEN_FILE of a ***PS3*** directory whose PARAM.SFO declares a 4 GiB value (sparse file) "
+                          "followed by one READ_FILE of 2^31-1 bytes on a sparse 3 GiB file: "
                           "alive=%s, next client served=%s, first reply bytes=%d\n%s" % (alive, served, len(got), txt[-1500:]), {})
     finally:
         s.stop()
